@@ -48,6 +48,7 @@ TSU = "tangelo/toolboxes/unitary_generator/trotter_suzuki.py"
 TGSYMPY = "tangelo/linq/target/target_sympy.py"
 VSQSF = "tangelo/toolboxes/ansatz_generator/vsqs.py"
 ADAPTF = "tangelo/toolboxes/ansatz_generator/adapt_ansatz.py"
+JKMNF = "tangelo/toolboxes/qubit_mappings/jkmn.py"
 ISP = "tangelo/toolboxes/molecular_computation/integral_solver_pyscf.py"
 
 FIRE = [
@@ -199,6 +200,9 @@ FIRE = [
     ("reference-circuit-memoised", "C05", [(SV, "def get_reference_circuit(n_spinorbitals, n_electrons, mapping, up_then_down=False, spin=None):", "@functools.lru_cache(maxsize=128)\ndef get_reference_circuit(n_spinorbitals, n_electrons, mapping, up_then_down=False, spin=None):"),
                                              (SV, "import warnings\n", "import warnings\nimport functools\n")], "K1.memoisation"),
     ("histogram-total-cached", "C18", [(HIST, "    @property\n    def n_shots(self):", "    @functools.cached_property\n    def n_shots(self):"), (HIST, "from collections import Counter\n", "from collections import Counter\nimport functools\n")], "K1.memoisation"),
+    ("scbk-refuses-zero-electrons", "C05", [(MT, "        if n_electrons is None:", "        if not n_electrons:")], "K3.mapping-dispatch"),
+    ("scbk-refuses-zero-electrons-c03", "C03", [(MT, "        if n_electrons is None:", "        if not n_electrons:")], "K3.mapping-dispatch"),
+    ("jkmn-elementwise-on-list", "C05", [(JKMNF, "    for i, occ in enumerate(vector):\n        if occ == 1:", "    for i in np.flatnonzero(vector == 1):\n        if True:")], "K11.elementwise"),
     ("beta-fill-slice", "C05", [(SV, "        vector[1:2*n_beta+1:2] = 1", "        vector[1:2*n_beta:2] = 1")], "K9.alpha-beta"),
     ("scbk-state-deletes-wrong-qubit", "C05", [(SV, "    vector_scbk = np.delete(vector_bk, n_spinorbitals//2-1)", "    vector_scbk = np.delete(vector_bk, n_spinorbitals//2)")], "K8.scbk-qubits"),
     ("scbk-parity-from-beta", "C03", [(SCBK, "    parity_middle_orb = (-1)**n_alpha", "    parity_middle_orb = (-1)**(n_electrons - n_alpha)")], "K8.scbk-qubits"),
@@ -283,6 +287,7 @@ SILENT = [
     ("sympy-expectation-adjoint-spelling", "C02", [(TGSYMPY, "        eigenvalue = Dagger(prepared_state) * operator * prepared_state", "        eigenvalue = prepared_state.conjugate().T * operator * prepared_state")]),
     ("complex-detection-spelling", "C02", [(BACK, '            if type(coef) in {complex, np.complex64, np.complex128}:', '            if type(coef) in (np.complex64, np.complex128, complex):', (0, 2)), (BACK, '            if type(coef) in {complex, np.complex64, np.complex128}:', '            if type(coef) in (np.complex64, np.complex128, complex):')]),
     ("vsqs-gate-stride-spelling", "C07", [(VSQSF, "        self.n_var_gates = (self.n_h_init + self.n_h_final + self.n_h_nav) * self.trotter_order", "        self.n_var_gates = self.trotter_order * self.n_h_init + self.trotter_order * (self.n_h_final + self.n_h_nav)")]),
+    ("jkmn-elementwise-after-conversion", "C05", [(JKMNF, "    for i, occ in enumerate(vector):\n        if occ == 1:", "    vector = np.asarray(vector)\n    for i in np.flatnonzero(vector == 1):\n        if True:")]),
     ("angle-law-spelling", "C06", [(AU, "    angle = 2.*coef if coef >= 0. else 4*np.pi+2*coef", "    angle = 2.*coef + (0. if coef >= 0. else 4*np.pi)")]),
     ("cirq-branches-reordered", "C01", [(TCIRQ, '        elif gate_name in {"SWAP"}:\n            target_circuit.append(GATE_CIRQ[gate_name](qubit_list[gate.target[0]], qubit_list[gate.target[1]]))\n        elif gate_name in {"CSWAP"}:\n            next_gate = GATE_CIRQ[gate_name].controlled(num_controls)\n            target_circuit.append(next_gate(*control_list, qubit_list[gate.target[0]], qubit_list[gate.target[1]]))\n',
                                          '        elif gate_name in {"CSWAP"}:\n            next_gate = GATE_CIRQ[gate_name].controlled(num_controls)\n            target_circuit.append(next_gate(*control_list, qubit_list[gate.target[0]], qubit_list[gate.target[1]]))\n        elif gate_name in {"SWAP"}:\n            target_circuit.append(GATE_CIRQ[gate_name](qubit_list[gate.target[0]], qubit_list[gate.target[1]]))\n')]),
